@@ -2,7 +2,7 @@
 from lib import core, gen
 from props.C04 import event_of
 
-LEVEL = 'other'
+LEVEL = 'proof'
 GOALS = ['halt', 'blank', 'spin']
 RADII = [2, 3, 4, 5, 6, 7, 8, 9]
 
